@@ -28,6 +28,8 @@ BINSETS = {
     "gapped_irregular": [(0.0, 1.0), (1.0, 2.0), (3.0, 4.0), (4.0, 6.0)],
     "tiny": pairs_from_edges([1e-7, 2e-7, 4e-7]),
     "offset": pairs_from_edges([1e9, 1e9 + 1, 1e9 + 2]),
+    # a real gap that is far below the allclose tolerance physt uses to call bins "consecutive"
+    "tinygap": [(0.0, 1.0), (1.0 + 2.0 ** -20, 2.0)],
 }
 
 
@@ -52,6 +54,13 @@ def seeded_binsets(seed, n=3):
 
 def is_consecutive(pairs):
     return all(pairs[i][1] == pairs[i + 1][0] for i in range(len(pairs) - 1))
+
+
+def near_consecutive(pairs, rtol=1e-5, atol=1e-8):
+    """Not consecutive, but every gap is within the tolerance of physt's is_consecutive()."""
+    if is_consecutive(pairs):
+        return False
+    return all(abs(pairs[i + 1][0] - pairs[i][1]) <= atol + rtol * abs(pairs[i][1]) for i in range(len(pairs) - 1))
 
 
 def distinct_edges(pairs):
